@@ -118,7 +118,7 @@ def handle (j : Json) : Json :=
             -- `code` loads it the way today's source does (`tltLoad`, a file sorted iff the effective sort_angles holds)
             Json.mkObj [("spec", maskJson (cleanMaskStmt truncRat ta.values (mk masks) l)),
                         ("model", maskJson (cleanMaskArg truncRat ta (mk masks) l)),
-                        ("code", maskJson (cleanMaskArgCode truncRat ta (mk masksCode) l)),
+                        ("code", maskJson (cleanMaskFileCode f32Rat truncRat ta (mk masksCode) l)),
                         ("sortedfile", maskJson (cleanMaskArgSorted truncRat ta (mk masks) l)),
                         ("byid", maskJson (cleanMaskById truncRat ts (mk masks) l)),
                         ("old", maskJson (cleanMaskOld truncRat ts (mk masks) l))]
